@@ -76,6 +76,7 @@ type Machine struct {
 	Witness          bool
 	TolerantInit     func(pkgPath string) bool
 	Stubs            map[string]*ssa.Function // full function name -> replacement (per-harness stubs of /repo functions)
+	NoopPkgs         func(pkgPath string) bool
 	jsonAppendString *ssa.Function
 	witnessed        map[string]bool
 }
@@ -103,6 +104,7 @@ func NewMachine(prog *ssa.Program, solver *Solver) *Machine {
 	}
 	registerIntrinsics(m)
 	registerModels(m)
+	registerCodecs(m)
 	return m
 }
 
@@ -298,6 +300,18 @@ func (m *Machine) callSSA(caller *frame, pos token.Pos, fn *ssa.Function, args [
 			m.initPackage(fn.Pkg)
 			return nil
 		}
+	}
+	if fn.Pkg != nil && m.NoopPkgs != nil && m.NoopPkgs(fn.Pkg.Pkg.Path()) {
+		// logging and similar: empty body, zero results
+		m.IntrHits["noop:"+fn.Pkg.Pkg.Path()]++
+		res := fn.Signature.Results()
+		switch res.Len() {
+		case 0:
+			return nil
+		case 1:
+			return m.zero(res.At(0).Type())
+		}
+		return m.zero(res)
 	}
 	if st, ok := m.Stubs[name]; ok && st != fn {
 		m.IntrHits["stub:"+name]++
